@@ -161,3 +161,15 @@ pub fn reset_logs() {
         TOK_N = 0;
     }
 }
+
+// ---------------------------------------------------------------- SmallVec never spills (asserted)
+/// `SmallVec::try_grow`: the inline capacity always suffices in these harnesses; the model asserts it, so a
+/// spill (heap growth with a symbolic size, which CBMC cannot digest) fails loudly instead of being explored.
+pub fn smallvec_try_grow<A: smallvec::Array>(
+    v: &mut smallvec::SmallVec<A>,
+    new_cap: usize,
+) -> Result<(), smallvec::CollectionAllocErr> {
+    let _ = v;
+    assert!(new_cap <= A::size(), "verif-model: SmallVec would spill to the heap");
+    Ok(())
+}
